@@ -711,6 +711,12 @@ class Exec:
         if k == 'use':
             return self.operand(p, frame, rv[1])
         if k == 'ref':
+            base, prj = rv[2]
+            if len(prj) == 1 and prj[0][0] == 'deref':
+                # `&(*x)` with x a `&str` / `&[u8]` literal modelled by its value: the reborrow is that value
+                v0 = self.read_loc(p, frame, ('L', frame.id, base), ())
+                if isinstance(v0, (Str, Bytes)) or (isinstance(v0, z3.ExprRef) and z3.is_string(v0)):
+                    return v0
             key, projs = self.loc_of(p, frame, rv[2])
             return Ptr(key, projs, rv[1], self.place_type(frame, rv[2]))
         if k == 'discr':
